@@ -33,7 +33,7 @@ func c13Addr(ch byte) string {
 	if ch == 'b' {
 		return "okA@X.Example" // (the domain's case differs too: the key of a recipient is the address as given in RCPT)
 	}
-	return fmt.Sprintf("ok%c@x.example", ch)
+	return fmt.Sprintf("ok%c%%d@x.example", ch) // (a '%' in the address: it is data, never a format)
 }
 
 func c13StatusErr(k int) error {
@@ -310,6 +310,58 @@ func evalC13Schedule(c C13Case) *h.Finding {
 
 func init() { h.RegisterReplayer("c13", evalC13Schedule) }
 
+// ---- very many occurrences of one recipient -----------------------------------------------------------------------
+
+type C13BigCase struct {
+	Copies int    `json:"copies"`
+	Via    string `json:"via"`  // data | bdat
+	Plan   string `json:"plan"` // return-value (no status set, LMTPData returns an error) | plain (backend without LMTPData)
+}
+
+func evalC13Big(c C13BigCase) *h.Finding {
+	mode := "lmtp-rcpt"
+	if c.Plan == "plain" {
+		mode = "lmtp"
+	}
+	cfg, be := modeConfig(mode)
+	be.Plan = func(int) h.DataPlan { return h.DataPlan{Max: -1, Verdict: h.RejErr("message")} }
+	var in strings.Builder
+	in.WriteString("LHLO c.example\r\nMAIL FROM:<ok@a.example>\r\n")
+	var rcpts []string
+	for i := 0; i < c.Copies; i++ {
+		rcpts = append(rcpts, "okmany@x.example")
+	}
+	rcpts = append(rcpts, "okother@x.example")
+	for _, r := range rcpts {
+		fmt.Fprintf(&in, "RCPT TO:<%s>\r\n", r)
+	}
+	nPre := 3 + len(rcpts)
+	if c.Via == "data" {
+		in.WriteString("DATA\r\nhello\r\n.\r\n")
+		nPre++
+	} else {
+		in.WriteString("BDAT 7 LAST\r\nhello\r\n")
+	}
+	in.WriteString("NOOP\r\n")
+	o := h.RunS(cfg, be, h.OneSeg([]byte(in.String())), h.TermEOF)
+	desc := fmt.Sprintf("%d occurrences of one recipient plus one other, via %s, backend %s", c.Copies, c.Via, c.Plan)
+	if f := o.Sanity("c13", desc); f != nil {
+		return f
+	}
+	if o.ParseErr != nil || len(o.Replies) != nPre+len(rcpts)+1 {
+		return h.F("c13-reply-count", "%s: %d replies (%v), want %d before the message, one per RCPT (%d) and the NOOP's", desc, len(o.Replies), o.ParseErr, nPre, len(rcpts))
+	}
+	for i, r := range rcpts {
+		rep := o.Replies[nPre+i]
+		if !strings.HasPrefix(strings.Join(rep.Text, "\n"), "<"+r+">") || rep.Class() != 5 {
+			return h.F("c13-not-attributed", "%s: final reply %d is %s, want the backend's refusal naming %s", desc, i, rep.String(), r)
+		}
+	}
+	return nil
+}
+
+func init() { h.RegisterReplayer("c13-big", evalC13Big) }
+
 func C13(tier string) int {
 	run := h.NewRun("C13", tier, "model_checking", "", 25*time.Minute)
 	maxR := 3
@@ -393,6 +445,18 @@ func C13(tier string) int {
 			run.Sample("scenario", 5, map[string]interface{}{"case": c, "executions": st.Executions, "max_depth": st.MaxDepth})
 		}
 	})
+	for _, n := range []int{2, 255, 256, 300, 1000} {
+		for _, via := range []string{"data", "bdat"} {
+			for _, plan := range []string{"return-value", "plain"} {
+				c := C13BigCase{Copies: n, Via: via, Plan: plan}
+				f := evalC13Big(c)
+				run.Eval(true)
+				if f != nil {
+					run.Violate("c13-big", c, f, func() *h.Finding { return evalC13Big(c) })
+				}
+			}
+		}
+	}
 	return run.Finish()
 }
 
